@@ -110,7 +110,9 @@ unsigned int XMLSynchronizedStringPool::getId(const XMLCh* const toFind) const
     unsigned int constCount = fConstPool->getStringCount();
     XMLMutexLock lockInit(&const_cast<XMLSynchronizedStringPool*>(this)->fMutex);
     XERCES_VERIF_ACCESS("SynchronizedStringPool.overflow", this, &const_cast<XMLSynchronizedStringPool*>(this)->fMutex, 0);
-    return XMLStringPool::getId(toFind)+constCount;
+    // zero ("not found") must stay zero: constCount is the id of the last string of the const pool
+    unsigned int id = XMLStringPool::getId(toFind);
+    return id ? id+constCount : 0;
 }
 
 
